@@ -1,19 +1,41 @@
 ---------------------------- MODULE Trace_Decomp ----------------------------
 (* C05: validation of recorded decomposition steps, complete decomposer runs and saved terms.
    reset : the diagram g0; Den(g0) is computed once
-   step  : terms returned by one apply_decomp(g0, d) (through the guarded re-export)
+   step  : terms returned by one apply_decomp(g0, d) (through the guarded re-export; be = "hash": on the hash backend)
            L2 StepSumOK: the terms' denotations sum to Den(g0);  L1: terms = the transcription's
-   run   : Decomposer::{decompose, decompose_parallel} under one configuration (driver, simplification,
-           component splitting, pool size): L2 ScalarOK: scalar() = the number g0 denotes, exact, not
+   run   : Decomposer::{decompose, decompose_parallel, decompose_standard} under one configuration (driver, simplification,
+           component splitting, pool size, backend, Sherlock tries): L2 ScalarOK: scalar() = the number g0 denotes, exact, not
            flagged approximate; no panic, no time-out.  (Equality of all runs with Den(g0) gives the
-           parallel = sequential and method-independence clauses.)
+           parallel = sequential and method-independence clauses.)  via = "reuse": the run was made by a Decomposer::empty()
+           that had already decomposed other targets (set_target): the previous target's result must not leak.
+   two   : decompose_until_depth(depth) followed by a finishing decompose / decompose_parallel (same or another driver) on a
+           clone of the partially decomposed Decomposer: L2 TwoStageScalarOK: the final scalar() = the number g0 denotes
+           (with component splitting the stored tree contains product nodes: spec/Decomp.tla TreeVal / ReduceTree,
+           model-checked in MC_DecompTree).  The partial tree itself is private: every completion of it is judged instead.
    saved : the terms saved (with_save) for a diagram with outputs by the BSS-type drivers
-           L2 SavedTermsOK: every term is Clifford and the terms' linear maps sum to Den(g0) *)
+           L2 SavedTermsOK: every term is Clifford and the terms' linear maps sum to Den(g0).  Judged for the sequential,
+           unsplit decomposer (one or two stages, either backend, re-used: the terms the target added).  Saving combined
+           with decompose_parallel or component splitting is outside the clause's quantifier (see SaveAnyMode).
+   info  : never judged (statistics): max_terms vs nterms, the partial state, decompose_until_depth called twice,
+           Sherlock parameters without a candidate, scalar() of an empty decomposer *)
 EXTENDS TraceLib, Decomp, FiniteSets, FiniteSetsExt
 VARIABLES l, g0, den0, viol, drift, stats
 vars == <<l, g0, den0, viol, drift, stats>>
+\* SWITCH (OFF): the saved-terms clause is quantified over "all graph-like diagrams with outputs and the BSS-only and
+\* BSS+cats drivers", not over the parallel / splitting modes.  The code does not keep it there: decompose_parallel works on
+\* clones whose `done` (and `nterms`) are dropped, and with component splitting the saved terms are terms of single
+\* components (on a diagram with outputs the component sub-diagrams lose their outputs and the run panics).  TRUE demands
+\* SavedTermsOK in every mode (optional patch for the parallel part: work/gD_fix_2_optional.diff).
+SaveAnyMode == FALSE
 Init == l = 1 /\ g0 = EmptyG /\ den0 = <<>> /\ viol = <<>> /\ drift = <<>>
-        /\ stats = [hosts |-> 0, steps |-> 0, runs |-> 0, saved |-> 0, nontrivial |-> 0, l1same |-> 0]
+        /\ stats = [hosts |-> 0, steps |-> 0, runs |-> 0, saved |-> 0, nontrivial |-> 0, l1same |-> 0,
+                    two_stage |-> 0, two_stage_split |-> 0, reuse_runs |-> 0, hash_events |-> 0, standard_runs |-> 0, sherlock_tries |-> 0,
+                    saved_other_modes |-> 0, saved_other_modes_bad |-> 0, terms_bound_seen |-> 0, terms_bound_exceeded |-> 0,
+                    partial_states |-> 0, partial_ready |-> 0, until_depth_twice |-> 0, until_depth_twice_panics |-> 0,
+                    sherlock_degenerate |-> 0, sherlock_degenerate_panics |-> 0]
+B2N(b) == IF b THEN 1 ELSE 0
+Flag(e, f) == Has(e, f) /\ e[f]
+IsHash(e) == Has(e, "be") /\ e.be = "hash"
 SameUpToNew3(spec, impl, old) ==
   LET ns == spec.vs \ old
       ni == impl.vs \ old
@@ -36,22 +58,56 @@ Step(e) ==
                same == Len(spec) = Len(terms) /\ \A i \in 1..Len(terms) : SameUpToNew3(spec[i], terms[i], g0.vs)
            IN /\ viol' = IF ok THEN viol ELSE Append(viol, <<l, "StepSumOK", e.decomp.kind, e.via>>)
               /\ drift' = IF same THEN drift ELSE Append(drift, <<l, "ApplyDecomp", e.decomp.kind>>)
-              /\ stats' = [stats EXCEPT !.steps = @ + 1, !.nontrivial = @ + 1, !.l1same = @ + (IF same THEN 1 ELSE 0)]
+              /\ stats' = [stats EXCEPT !.steps = @ + 1, !.nontrivial = @ + 1, !.l1same = @ + (IF same THEN 1 ELSE 0),
+                                        !.hash_events = @ + B2N(IsHash(e))]
               /\ UNCHANGED <<g0, den0>>
     [] e.k = "run" ->
          /\ viol' = IF e.res = "panic" THEN Append(viol, <<l, "NoPanic", e.driver, e.simp>>)
                     ELSE IF e.res = "timeout" THEN Append(viol, <<l, "Terminates", e.driver, e.simp>>)
                     ELSE IF ~e.approx /\ ScFromAbs(e.scalar) = den0[<<>>] THEN viol
                     ELSE Append(viol, <<l, "ScalarOK", e.driver, e.simp>>)
-         /\ stats' = [stats EXCEPT !.runs = @ + 1, !.nontrivial = @ + (IF TCount(g0) > 0 THEN 1 ELSE 0)]
+         \* L1 (drift only): max_terms() of a fresh Decomposer is terms_for_tcount(tcount): the BSS bound of spec/Decomp.tla
+         /\ drift' = IF e.res = "ok" /\ Has(e, "max_terms") /\ e.max_terms >= 0 /\ TCount(g0) <= 24 /\ e.max_terms # TermsForTCount(TCount(g0))
+                     THEN Append(drift, <<l, "MaxTerms", e.driver>>) ELSE drift
+         /\ stats' = [stats EXCEPT !.runs = @ + 1, !.nontrivial = @ + (IF TCount(g0) > 0 THEN 1 ELSE 0),
+                                   !.reuse_runs = @ + B2N(Has(e, "via") /\ e.via = "reuse"),
+                                   !.hash_events = @ + B2N(IsHash(e)),
+                                   !.standard_runs = @ + B2N(e.driver = "standard"),
+                                   !.sherlock_tries = @ + B2N(Has(e, "tries")),
+                                   !.terms_bound_seen = @ + B2N(e.res = "ok" /\ Has(e, "max_terms") /\ e.max_terms >= 0 /\ ~e.par),
+                                   !.terms_bound_exceeded = @ + B2N(e.res = "ok" /\ Has(e, "max_terms") /\ e.max_terms >= 0 /\ ~e.par /\ e.nterms > e.max_terms)]
+         /\ UNCHANGED <<g0, den0>>
+    [] e.k = "two" ->
+         /\ viol' = IF e.res = "panic" THEN Append(viol, <<l, "NoPanic", e.driver, e.simp>>)
+                    ELSE IF e.res = "timeout" THEN Append(viol, <<l, "Terminates", e.driver, e.simp>>)
+                    ELSE IF ~e.approx /\ ScFromAbs(e.scalar) = den0[<<>>] THEN viol
+                    ELSE Append(viol, <<l, "TwoStageScalarOK", e.driver, e.simp>>)
+         /\ stats' = [stats EXCEPT !.two_stage = @ + 1, !.nontrivial = @ + (IF TCount(g0) > 0 THEN 1 ELSE 0),
+                                   !.two_stage_split = @ + B2N(e.split /\ e.depth >= 1 /\ Cardinality(DComponents(g0)) > 1),
+                                   !.hash_events = @ + B2N(IsHash(e))]
          /\ UNCHANGED <<g0, den0, drift>>
     [] e.k = "saved" ->
-         /\ viol' = IF e.res # "ok" THEN Append(viol, <<l, "NoPanic", e.driver, e.simp>>)
-                    ELSE LET terms == [i \in 1..Len(e.terms) |-> FromAbs(e.terms[i])] IN
-                         IF Len(terms) > 0 /\ (\A i \in 1..Len(terms) : TCount(terms[i]) = 0) /\ SumDen(terms) = den0 THEN viol
-                         ELSE Append(viol, <<l, "SavedTermsOK", e.driver, e.simp>>)
-         /\ stats' = [stats EXCEPT !.saved = @ + 1, !.nontrivial = @ + 1]
+         LET other == Flag(e, "par") \/ Flag(e, "split")
+             judged == SaveAnyMode \/ ~other
+             ok == /\ e.res = "ok"
+                   /\ LET terms == [i \in 1..Len(e.terms) |-> FromAbs(e.terms[i])] IN
+                      Len(terms) > 0 /\ (\A i \in 1..Len(terms) : TCount(terms[i]) = 0) /\ SumDen(terms) = den0
+         IN
+         /\ viol' = IF ~judged THEN viol
+                    ELSE IF e.res # "ok" THEN Append(viol, <<l, "NoPanic", e.driver, e.simp>>)
+                    ELSE IF ok THEN viol
+                    ELSE Append(viol, <<l, "SavedTermsOK", e.driver, e.simp>>)
+         /\ stats' = [stats EXCEPT !.saved = @ + 1, !.nontrivial = @ + 1, !.hash_events = @ + B2N(IsHash(e)),
+                                   !.saved_other_modes = @ + B2N(other), !.saved_other_modes_bad = @ + B2N(other /\ ~ok)]
          /\ UNCHANGED <<g0, den0, drift>>
+    [] e.k = "info" ->
+         /\ stats' = [stats EXCEPT !.partial_states = @ + B2N(e.what = "partial"),
+                                   !.partial_ready = @ + B2N(e.what = "partial" /\ e.ready1),
+                                   !.until_depth_twice = @ + B2N(e.what = "until_depth_twice"),
+                                   !.until_depth_twice_panics = @ + B2N(e.what = "until_depth_twice" /\ e.res # "ok"),
+                                   !.sherlock_degenerate = @ + B2N(e.what = "sherlock_degenerate"),
+                                   !.sherlock_degenerate_panics = @ + B2N(e.what = "sherlock_degenerate" /\ e.res # "ok")]
+         /\ UNCHANGED <<g0, den0, viol, drift>>
 Next == \/ /\ l <= NLines /\ Step(Rec[l]) /\ l' = l + 1
         \/ /\ l = NLines + 1 /\ Report(l, viol, drift, stats) /\ l' = l + 1 /\ UNCHANGED <<g0, den0, viol, drift, stats>>
 =============================================================================
